@@ -22,7 +22,7 @@ pub fn check() -> Check {
                (b) through a whole Cli: typed between neighbours, moved over with Left/Right, deleted with Backspace, retyped, submitted inside a command name, as an argument and in a short-option cluster, recalled with Up, edited (Backspace, retype, Left, Right) and resubmitted, recalled again next to its own proper prefix and its own proper suffix, submitted alone between a CR-ended line and its own LF, redrawn through set_prompt and left alone by Tab while the cursor stands left of it (terminal emulator), and rendered in `unexpected option: -X` by a derived command; echo bytes equal typed bytes. \
                (c) a derived command whose short names are 2-, 3- and 4-octet characters in every spelling the macros take (generated from a field identifier, char literal, string literal): alone, clustered, next to each other, and the look-alike whose code is the first octet must be refused. \
                Quick runs (b) for every scalar in five of the 25 neighbour contexts (one left neighbour, rotating with the scalar and the seed, with every right neighbour) and in all 25 for encoded-length boundaries and the special characters; thorough runs all 25 contexts for every scalar. \
-               Every scalar is non-trivial; distinct by scalar value (counted once per scalar that passed).",
+               Every scalar is non-trivial; distinct by scalar value (counted once per scalar that passed). Every scalar is also submitted as the value of a `char` field of a derived command (positional; boundary scalars also behind an option) and must come back as that char.",
         assumptions: &[
             "U+007F (DEL) is left open by the property and never typed",
             "`h` is not used as a short option (reserved for help) and `-` is not placed first in a cluster",
